@@ -288,6 +288,15 @@ func c11Process(c *vk.Ctx, r *rand.Rand, round int) bool {
 				return
 			default:
 			}
+			// bounded backlog: never more than ~100 datagrams the target has not seen yet, so that the
+			// server's socket queue cannot overflow while the server process is starved of CPU
+			umu.Lock()
+			backlog := len(udpIDs) - utgt.Count()
+			umu.Unlock()
+			if backlog > 100 {
+				time.Sleep(time.Millisecond)
+				continue
+			}
 			id := nextID(c.Batch)
 			umu.Lock()
 			udpIDs = append(udpIDs, id)
@@ -402,11 +411,24 @@ func c11Process(c *vk.Ctx, r *rand.Rand, round int) bool {
 	umu.Lock()
 	ids := udpIDs
 	umu.Unlock()
+	missing := 0
 	for _, id := range ids {
-		if seen[id] != 1 {
+		if seen[id] > 1 {
 			c.Violation("C11/datagram-not-handled-by-exactly-one-generation", map[string]any{"times_forwarded": seen[id], "datagrams_sent": len(ids)})
 			return false
 		}
+		if seen[id] == 0 {
+			missing++
+		}
+	}
+	if missing > 0 {
+		// datagrams the kernel dropped at the server's socket were never received by the server
+		drops := lab.UDPDrops(retained)
+		if int64(missing) > drops {
+			c.Violation("C11/datagram-not-handled-by-exactly-one-generation", map[string]any{"times_forwarded": 0, "missing": missing, "kernel_drops_at_server_socket": drops, "datagrams_sent": len(ids)})
+			return false
+		}
+		c.Inconclusive(fmt.Sprintf("%d datagrams were dropped by the kernel at the server socket (drop counter %d): not delivered to any generation", missing, drops))
 	}
 	replies := map[uint64]int{}
 	for _, g := range ucl.Snap() {
